@@ -1575,11 +1575,16 @@ class Model(Object):
         ]
         new_model.add_cons_vars(new_cons, sloppy=True)
         direction = self.objective.direction
-        new_model.objective = dict(
+        new_objective = dict(
             left=self.objective,
             right=right.objective,
             sum=self.objective.expression + right.objective.expression,
         )[objective]
+        # The merged model has the left objective already (it is the left model or
+        # a copy of it); assigning the left model's Objective object to a copy
+        # would make both models share it.
+        if objective != "left":
+            new_model.objective = new_objective
         if objective == "sum":
             # an expression carries no direction: keep the left model's
             new_model.objective_direction = direction
